@@ -198,6 +198,12 @@ let respond (line : String.t) : String.t =
     (match parse_groups (parse_term grouping) with
      | None -> "unparsed"
      | Some gs -> string_of_int (nat_to_int (gi_diagnose (kids (parse_term blocks)) gs)))
+  | [ "search"; blocks ] ->
+    (* the family search as a function of the canonical blocks, rendered like the hook's grouping *)
+    let kids t = match t with Node (_, ks) -> ks in
+    (match search_render (kids (parse_term blocks)) with
+     | Some g -> show_term g
+     | None -> "(NoGrouping \"\")")
   | [ "canon"; b ] -> show_term (canon (parse_term b))
   | [ "ren_by"; orig; canonical ] ->
     (* the resolver alone, driven by the position map read off the rewritten generics list *)
